@@ -12,7 +12,7 @@ def one(src):
     out = {}
     try:
         subprocess.run('git -C /repo archive HEAD | tar -x -C %s' % d, shell=True, check=True)
-        p = subprocess.run(['git', 'apply', os.path.join(src, 'patch.diff')], cwd=d, stdout=subprocess.PIPE, stderr=subprocess.STDOUT, text=True)
+        p = subprocess.run(['git', 'apply', os.path.join(src, os.environ.get('MATRIX_PATCH', 'patch.diff'))], cwd=d, stdout=subprocess.PIPE, stderr=subprocess.STDOUT, text=True)
         if p.returncode != 0:
             return src, {'error': 'patch does not apply: ' + p.stdout[-200:]}
         env = dict(os.environ, QSVERIF_EVIDENCE_DIR=os.path.join(d, '.ev'))
